@@ -21,6 +21,7 @@ MUTANTS += [
     ('source block: current line prints the voltage', [('mininec.Excitation.as_mininec', "format_float ([self.current.real], 1) [0]", "format_float ([self.voltage.real], 1) [0]")], ['labelled-value']),
     ('source block: impedance parts swapped', [('mininec.Excitation.as_mininec', "              , format_float ([self.impedance.real], use_e = True) [0]\n              , format_float ([self.impedance.imag], use_e = True) [0]", "              , format_float ([self.impedance.imag], use_e = True) [0]\n              , format_float ([self.impedance.real], use_e = True) [0]")], ['labelled-value']),
     ('load writer called twice', [('mininec.Mininec.loads_as_mininec', "            r.append (l.as_mininec (self))", "            r.append (l.as_mininec (self))\n            r.append (l.as_mininec (self))")], ['for self']),
+    ('load lines memoised per object', [('mininec._Load.as_mininec', "            imp = self.impedance (parent.f, pulse)", "            if pulse.geobj.n not in zc:\n                zc [pulse.geobj.n] = self.impedance (parent.f, pulse)\n            imp = zc [pulse.geobj.n]"), ('mininec._Load.as_mininec', "        r = []\n", "        r = []\n        zc = {}\n")], ['local-memo']),
 ]
 REFACTORS = [
     ('magnitude via abs builtin', [('mininec.Mininec.currents_as_mininec', "((k + 1, c.real, c.imag, np.abs (c), a), use_e = True)", "((k + 1, c.real, c.imag, abs (c), a), use_e = True)")]),
